@@ -91,12 +91,12 @@ FIELD_ATTR = {
     "optional": "#[ts(optional)]", "optional_nullable": "#[ts(optional = nullable)]",
     "optional_ssi": '#[ts(optional)] #[serde(skip_serializing_if = "Option::is_none", default)]',
     "rename": '#[serde(rename = "Renamed_field")]', "default": "#[serde(default)]",
-    "rename_q": '#[serde(rename = "q\\"u\\\\o")]',        # a name with a double quote and a backslash in it
+    "rename_q": '#[serde(rename = "q\\"u\\\\o\\nn")]',        # a name with a double quote and a backslash in it
     "ts_flatten": "#[ts(flatten)]", "ts_rename": '#[ts(rename = "Renamed_field")]',
 }
 VARIANT_ATTR = {
     "skip": "#[serde(skip)]", "untagged": "#[serde(untagged)]", "rename": '#[serde(rename = "renamed_Variant")]',
-    "rename_q": '#[serde(rename = "q\\"u\\\\o")]',
+    "rename_q": '#[serde(rename = "q\\"u\\\\o\\nn")]',
     "rename_all": '#[serde(rename_all = "camelCase")]', "rename_all_kebab": '#[serde(rename_all = "kebab-case")]',
 }
 CONTAINER_ATTR = {
